@@ -26,6 +26,13 @@ def allowed(exc):
     if isinstance(exc, pyx12.errors.X12Error):
         return True
     if isinstance(exc, pyx12.errors.EngineError) and str(exc).startswith('Map not found'):
+        # the documented error of an interchange whose version/type has no map: when the index does list a map for this
+        # (ISA12, GS01, GS08) - whatever BHT02 says - the error is not that one
+        m = re.search(r'icvn=(.*?), fic=(.*?), vriic=(.*?)(?:, tspc=.*)?$', str(exc))
+        if m is not None and 'tspc=' in str(exc):
+            from .. import mapmodel
+            if any((e.get('icvn'), e.get('fic'), e.get('vriic')) == (m.group(1), m.group(2), m.group(3)) for e in mapmodel.index()):
+                return False
         return True
     return False
 
